@@ -430,7 +430,10 @@ def body_soak(rep, case, prop="C07"):
                     data = refb.encode(valid_fields(FAMILIES[(i // every) % len(FAMILIES)], tag, i))
                 else:
                     data = junk
-                await rig.send(port, data)
+                try:
+                    await rig.send(port, data)
+                except udptx.DeliveryStopped:
+                    return want, [getattr(d, "device_id", None) for d in rig.callbacks], [port], list(rig.loop_errors), [], []
                 if i % 4096 == 4095 and await rig.barrier():
                     return want, [getattr(d, "device_id", None) for d in rig.callbacks], [port], list(rig.loop_errors), [], []
             dead = await rig.barrier()
